@@ -293,9 +293,43 @@ func (p *c02) RunCase(ctx *runner.Ctx) runner.CaseResult {
 		nWrites = 2*len(ixRangePool) + r.Intn(60)
 		x.r.Counters["scaled_states"]++
 	}
+	// index-heavy tables ("single table design": DynamoDB allows 20 global and 5 local indexes per table): twelve more
+	// indexes over the same four attributes, declared with the table (case 3 of 20) or added one by one to the
+	// table that already holds items, with writes in between (case 13 of 20) - seventeen in all. Reads through the
+	// FIRST indexes (the ones every request below uses) are what they are on a table with five
+	extras := []adapt.IndexSpec{}
+	if ctx.Case%20 == 3 || ctx.Case%20 == 13 {
+		for i, kk := range [][2]string{{"s", ""}, {"s", "g"}, {"g", "r"}, {"s", "r"}, {"g", "h"}, {"s", "h"}, {"r", ""}, {"r", "g"}, {"r", "s"}, {"h", "g"}, {"h", ""}, {"h", "s"}} {
+			ix := adapt.IndexSpec{Name: fmt.Sprintf("gsx%d", i), Hash: kk[0], HashT: ixTypes[kk[0]]}
+			if kk[1] != "" {
+				ix.Range, ix.RangeT = kk[1], ixTypes[kk[1]]
+			}
+			extras = append(extras, ix)
+		}
+		x.r.Counters["index_heavy_tables"]++
+	}
+	if ctx.Case%20 == 3 {
+		spec.Indexes = append(spec.Indexes, extras...)
+	}
 	cl, m, hist, ok := buildState(r, adapter, spec, nWrites, ctx, x)
 	if !ok {
 		return x.r
+	}
+	if ctx.Case%20 == 13 {
+		more := []adapt.Op{}
+		for i := range extras {
+			more = append(more, adapt.Op{Kind: adapt.OpUpdateTable, Table: spec.Name, Chg: []adapt.IndexChange{{Create: &extras[i]}}}, ixRandomWrite(r, spec.Name, 300+2*i), ixRandomWrite(r, spec.Name, 301+2*i))
+		}
+		keys := mon.KeyLog{}
+		for _, it := range m.Tables[spec.Name].Items {
+			keys.Add(spec.Name, m.Tables[spec.Name].KeyOf(it))
+		}
+		if f := mon.RunHistory(cl, m, more, keys, true, nil, ctx.Trace, &mon.HistoryStats{}); f != nil {
+			f.Prefix = append(append([]adapt.Op{}, hist...), f.Prefix...)
+			x.failureViolation(adapter, f, spec)
+			return x.r
+		}
+		hist = append(hist, more...)
 	}
 	t := m.Tables[spec.Name]
 	check := func(op adapt.Op, fpKind string) bool {
